@@ -127,3 +127,133 @@ Proof.
   - apply Forall_forall. auto.
   - eapply cat_map_len; [|exact H]. intros a b. apply lp24_ne.
 Qed.
+
+(* ---------- marshalCertificate / unmarshalCertificate ---------- *)
+Definition nonnil {A} (l : list A) : Prop := l <> [].
+
+Lemma is_nil_false {A} (l : list A) : l <> [] -> is_nil l = false.
+Proof. destruct l; [congruence | reflexivity]. Qed.
+Lemma is_nil_true_iff {A} (l : list A) : is_nil l = true <-> l = [].
+Proof. destruct l; cbn; split; congruence. Qed.
+
+Lemma rd_scts l bs : Forall nonnil l -> cat_map (fun sct => lp16 (Ok sct)) l = Ok bs ->
+  rd_many rd_sct (length bs) bs = Some l.
+Proof.
+  intros Hl H. eapply rd_many_cat with (P := nonnil) (enc := fun e => lp16 (Ok e)); eauto.
+  - intros a b r Pa Hb. destruct (rd_lp16_item a b r Hb) as [Hr Hne]. split; [|exact Hne].
+    unfold rd_sct. rewrite Hr. rewrite is_nil_false by exact Pa. reflexivity.
+  - eapply cat_map_len; [|exact H]. intros a b. apply lp16_ne.
+Qed.
+
+Lemma rd_exts_nil fuel leaf o sc : rd_exts fuel leaf [] o sc = Some (o, sc).
+Proof. destruct fuel; reflexivity. Qed.
+
+Definition rd_exts_body (f : nat) (leaf : bool) (s : bytes) (ocsp : option bytes) (scts : option (list bytes)) :=
+      match rd_u16 s with
+      | None => None
+      | Some (ext, s1) =>
+        match rd_lp16 s1 with
+        | None => None
+        | Some (data, s2) =>
+          if negb leaf then rd_exts f leaf s2 ocsp scts
+          else if ext =? extensionStatusRequest then
+            match rd_u8 data with
+            | None => None
+            | Some (st, d1) =>
+              if negb (st =? statusTypeOCSP) then None else
+              match rd_lp24 d1 with
+              | None => None
+              | Some (o, d2) =>
+                if is_nil o then None
+                else if is_nil d2 then rd_exts f leaf s2 (Some o) scts else None
+              end
+            end
+          else if ext =? extensionSCT then
+            match rd_lp16 data with
+            | None => None
+            | Some (lst, d1) =>
+              if is_nil lst then None else
+              match rd_many rd_sct (length lst) lst with
+              | None => None
+              | Some l =>
+                if is_nil d1
+                then rd_exts f leaf s2 ocsp (Some (match scts with Some l0 => l0 ++ l | None => l end))
+                else None
+              end
+            end
+          else rd_exts f leaf s2 ocsp scts
+        end
+      end.
+Lemma rd_exts_unfold f leaf s oc sc : s <> [] -> rd_exts (S f) leaf s oc sc = rd_exts_body f leaf s oc sc.
+Proof. destruct s; [congruence | reflexivity]. Qed.
+
+Lemma be16_app_ne x r : be16 x ++ r <> [].
+Proof. unfold be16. discriminate. Qed.
+Lemma be24_app_ne x r : be24 x ++ r <> [].
+Proof. unfold be24. discriminate. Qed.
+
+Lemma rd_exts_ocsp_step f o st body rest oc0 sc :
+  o <> [] -> lp24 (Ok o) = Ok st -> lp16 (Ok (statusTypeOCSP :: st)) = Ok body ->
+  rd_exts (S f) true ((be16 extensionStatusRequest ++ body) ++ rest) oc0 sc = rd_exts f true rest (Some o) sc.
+Proof.
+  intros Ho Hst Hbody.
+  apply lp24_ok in Hst. destruct Hst as (o' & Eo & Lo & ->). injection Eo as <-.
+  apply lp16_ok in Hbody. destruct Hbody as (d & Ed & Ld & ->). injection Ed as <-.
+  rewrite <- app_assoc. rewrite rd_exts_unfold by apply be16_app_ne. unfold rd_exts_body.
+  rewrite rd_be16 by (unfold extensionStatusRequest; lia).
+  rewrite rd_lp16_app by exact Ld.
+  cbn [negb rd_u8]. replace (extensionStatusRequest =? extensionStatusRequest) with true by (symmetry; apply N.eqb_refl).
+  replace (statusTypeOCSP =? statusTypeOCSP) with true by (symmetry; apply N.eqb_refl). cbn [negb].
+  Show. rewrite <- (app_nil_r (be24 (blen o) ++ o)). rewrite rd_lp24_app by exact Lo.
+  rewrite is_nil_false by exact Ho. reflexivity.
+Qed.
+
+Lemma rd_exts_sct_step f l body rest oc sc0 :
+  l <> [] -> Forall nonnil l ->
+  lp16 (lp16 (cat_map (fun sct => lp16 (Ok sct)) l)) = Ok body ->
+  rd_exts (S f) true ((be16 extensionSCT ++ body) ++ rest) oc sc0
+  = rd_exts f true rest oc (Some (match sc0 with Some l0 => l0 ++ l | None => l end)).
+Proof.
+  intros Hl Hne Hbody.
+  apply lp16_ok in Hbody. destruct Hbody as (d & Ed & Ld & ->).
+  apply lp16_ok in Ed. destruct Ed as (lst & El & Ll & ->).
+  rewrite <- app_assoc. rewrite rd_exts_unfold by apply be16_app_ne. unfold rd_exts_body.
+  rewrite rd_be16 by (unfold extensionSCT; lia).
+  rewrite rd_lp16_app by exact Ld.
+  cbn [negb]. replace (extensionSCT =? extensionStatusRequest) with false by reflexivity.
+  replace (extensionSCT =? extensionSCT) with true by reflexivity.
+  rewrite <- (app_nil_r (be16 (blen lst) ++ lst)). rewrite rd_lp16_app by exact Ll.
+  assert (Hlst : lst <> []).
+  { destruct l as [|x l']; [congruence|]. cbn [cat_map] in El.
+    apply bind_ok in El. destruct El as (a & Ha & El). apply bind_ok in El. destruct El as (b & Hb & El).
+    inversion El. apply lp16_ne in Ha. destruct a; [congruence | discriminate]. }
+  rewrite is_nil_false by exact Hlst.
+  rewrite (rd_scts l lst Hne El). reflexivity.
+Qed.
+
+Lemma leaf_exts_rd ocsp scts e :
+  match ocsp with Some o => o <> [] | None => True end ->
+  match scts with Some l => l <> [] /\ Forall nonnil l | None => True end ->
+  leaf_exts ocsp scts = Ok e ->
+  forall fuel, (2 <= fuel)%nat -> rd_exts fuel true e None None = Some (ocsp, scts).
+Proof.
+  intros Ho Hs H fuel Hf. unfold leaf_exts in H.
+  apply bind_ok in H. destruct H as (a & Ha & H). apply bind_ok in H. destruct H as (b & Hb & H).
+  inversion H; subst e. clear H.
+  destruct fuel as [|[|f]]; try lia.
+  destruct ocsp as [o|]; destruct scts as [l|].
+  - apply bind_ok in Ha. destruct Ha as (st & Hst & Ha). apply bind_ok in Ha. destruct Ha as (body & Hbody & Ha).
+    inversion Ha; subst a. apply bind_ok in Hb. destruct Hb as (body2 & Hbody2 & Hb). inversion Hb; subst b.
+    rewrite (rd_exts_ocsp_step _ o st body _ None None Ho Hst Hbody).
+    rewrite <- (app_nil_r (be16 extensionSCT ++ body2)).
+    destruct Hs as [Hs1 Hs2].
+    rewrite (rd_exts_sct_step _ l body2 [] (Some o) None Hs1 Hs2 Hbody2). apply rd_exts_nil.
+  - apply bind_ok in Ha. destruct Ha as (st & Hst & Ha). apply bind_ok in Ha. destruct Ha as (body & Hbody & Ha).
+    inversion Ha; subst a. inversion Hb; subst b.
+    rewrite (rd_exts_ocsp_step _ o st body _ None None Ho Hst Hbody). apply rd_exts_nil.
+  - inversion Ha; subst a. apply bind_ok in Hb. destruct Hb as (body2 & Hbody2 & Hb). inversion Hb; subst b.
+    cbn [app]. rewrite <- (app_nil_r (be16 extensionSCT ++ body2)).
+    destruct Hs as [Hs1 Hs2].
+    rewrite (rd_exts_sct_step _ l body2 [] None None Hs1 Hs2 Hbody2). apply rd_exts_nil.
+  - inversion Ha; inversion Hb; subst. apply rd_exts_nil.
+Qed.
